@@ -36,7 +36,7 @@ class GRPCService:
         self._config = config
         self._service_url = config.SERVICE_URL
         self._secure = config.SERVICE_SECURE
-        self._metadata = None
+        self._auth_provider = None
 
     def start(self):
         """Start and connect the GRPC channel."""
@@ -57,12 +57,9 @@ class GRPCService:
 
         :return: list of metadata
         """
-        if self._metadata is None:
-            self._metadata = self._build_metadata()
-        return self._metadata
-
-    def _build_metadata(self):
-        provider = AuthProvider.get_provider(self._config)
-        if provider is not None:
-            return provider.provide()
+        # the provider is created once, and asked for each request: a token it hands out can expire
+        if self._auth_provider is None:
+            self._auth_provider = AuthProvider.get_provider(self._config) or False
+        if self._auth_provider:
+            return self._auth_provider.provide()
         return []
